@@ -835,6 +835,209 @@ fn cmd_faults(args: &[String]) {
     println!("{}", json!({"records":count,"messages":nmsg}));
 }
 
+// ---------------------------------------------------------------------------------------
+// fuzz: C03, structure-aware mutation of valid messages + random bytes, all decoder options
+// ---------------------------------------------------------------------------------------
+const HOSTILE_STR: &[&str] = &["\u{C3}\u{A9}", "\u{e9}", "\u{4e2d}", "\"", "\\", "\u{0}", "\u{fd}\u{80}", "\u{7f}", " ", "\u{1F600}"];
+
+fn mutate(rng: &mut StdRng, base: &[u8]) -> Vec<u8> {
+    let mut b = base.to_vec();
+    let parsed = obs::parse(base);
+    let n_mut = rng.random_range(1..=3);
+    for _ in 0..n_mut {
+        match rng.random_range(0..12) {
+            0 => { if !b.is_empty() { let i = rng.random_range(0..b.len()); b[i] ^= 1 << rng.random_range(0..8); } }
+            1 => { let k = rng.random_range(0..=b.len()); b.truncate(k); }
+            2 => { for _ in 0..rng.random_range(1..40) { b.push(rng.random()); } }
+            3 => { // header length edits
+                if b.len() >= 4 {
+                    let l = u16::from_be_bytes([b[2], b[3]]);
+                    let nl = match rng.random_range(0..5) { 0 => l.wrapping_add(4), 1 => l.wrapping_sub(4), 2 => l.wrapping_add(1), 3 => 0xFFFF, _ => rng.random() };
+                    b[2..4].copy_from_slice(&nl.to_be_bytes());
+                }
+            }
+            4 | 5 => { // attribute length edits (also nested PASSWORD-ALGORITHMS entries)
+                if let Some(p) = &parsed {
+                    if !p.attrs.is_empty() {
+                        let a = &p.attrs[rng.random_range(0..p.attrs.len())];
+                        let off = if a.t == obs::T_PWD_ALGS && a.value.len() >= 4 && rng.random_bool(0.6) { a.off + 4 + 2 } else { a.off + 2 };
+                        if off + 2 <= b.len() {
+                            let l = u16::from_be_bytes([b[off], b[off + 1]]);
+                            let nl = match rng.random_range(0..6) { 0 => l.wrapping_add(1), 1 => l.wrapping_sub(1), 2 => l.wrapping_add(4), 3 => 0, 4 => 0xFFFF, _ => rng.random() };
+                            b[off..off + 2].copy_from_slice(&nl.to_be_bytes());
+                        }
+                    }
+                }
+            }
+            6 | 7 => { // inject hostile characters into a string attribute at a random offset, fix lengths
+                if let Some(p) = &parsed {
+                    let strs: Vec<&obs::RawAttr> = p.attrs.iter().filter(|a| [obs::T_USERNAME, obs::T_REALM, obs::T_NONCE, obs::T_SOFTWARE, obs::T_ERROR].contains(&a.t)).collect();
+                    if !strs.is_empty() {
+                        let a = strs[rng.random_range(0..strs.len())];
+                        let mut items: Vec<Item> = Vec::new();
+                        for x in &p.attrs {
+                            if x.off == a.off {
+                                let mut v = x.value.clone();
+                                let lo = if x.t == obs::T_ERROR { 4.min(v.len()) } else { 0 };
+                                let at = rng.random_range(lo..=v.len());
+                                let ins = HOSTILE_STR[rng.random_range(0..HOSTILE_STR.len())].as_bytes();
+                                v.splice(at..at, ins.iter().cloned());
+                                items.push(Item::Raw(x.t, v));
+                            } else {
+                                items.push(Item::Raw(x.t, x.value.clone()));
+                            }
+                        }
+                        b = obs::build_typed(p.mtype, &p.id, &items);
+                    }
+                }
+            }
+            8 => { // duplicate / splice attributes
+                if let Some(p) = &parsed {
+                    if !p.attrs.is_empty() {
+                        let mut items: Vec<Item> = p.attrs.iter().map(|x| Item::Raw(x.t, x.value.clone())).collect();
+                        let i = rng.random_range(0..items.len());
+                        let dup = items[i].clone();
+                        let at = rng.random_range(0..=items.len());
+                        items.insert(at, dup);
+                        b = obs::build_typed(p.mtype, &p.id, &items);
+                    }
+                }
+            }
+            9 => { if b.len() > 20 { let i = rng.random_range(20..b.len()); b[i] = rng.random(); } }
+            10 => { if b.len() >= 2 { b[0] = rng.random(); b[1] = rng.random(); } }
+            _ => { // attribute type edit
+                if let Some(p) = &parsed {
+                    if !p.attrs.is_empty() {
+                        let a = &p.attrs[rng.random_range(0..p.attrs.len())];
+                        let kinds = body_kinds();
+                        let t = zoo::type_code(kinds[rng.random_range(0..kinds.len())]);
+                        if a.off + 2 <= b.len() { b[a.off..a.off + 2].copy_from_slice(&t.to_be_bytes()); }
+                    }
+                }
+            }
+        }
+    }
+    b
+}
+
+fn fuzz_record(bytes: &[u8]) -> Value {
+    use stun_rs::attributes::stun::{Fingerprint, MessageIntegrity, MessageIntegritySha256};
+    let key = HMACKey::new_short_term(RT_PASSWORD).unwrap();
+    let mut res = Vec::new();
+    let mut first: Option<(Value, usize)> = None;
+    for o in 0..N_OPTS {
+        let dec = codec::decoder_for(o, &key);
+        match catch_unwind(AssertUnwindSafe(|| dec.decode(bytes))) {
+            Err(_) => res.push(json!({"ok":false,"size":-1,"panic":true})),
+            Ok(Err(_)) => res.push(json!({"ok":false,"size":-1,"panic":false})),
+            Ok(Ok((m, size))) => {
+                if o == 0 {
+                    first = Some((Value::Array(m.attributes().iter().map(zoo::project).collect()), size));
+                }
+                res.push(json!({"ok":true,"size":size,"panic":false}));
+            }
+        }
+    }
+    let git_panic = catch_unwind(AssertUnwindSafe(|| {
+        let _ = stun_rs::get_input_text::<MessageIntegrity>(bytes);
+        let _ = stun_rs::get_input_text::<MessageIntegritySha256>(bytes);
+        let _ = stun_rs::get_input_text::<Fingerprint>(bytes);
+    })).is_err();
+    // the result depends only on the first `size` bytes
+    let prefix_same = match &first {
+        None => true,
+        Some((d, size)) => {
+            if *size > bytes.len() { false } else {
+                let dec = codec::decoder_for(0, &key);
+                match catch_unwind(AssertUnwindSafe(|| dec.decode(&bytes[..*size]))) {
+                    Ok(Ok((m, s2))) => s2 == *size && Value::Array(m.attributes().iter().map(zoo::project).collect()) == *d,
+                    _ => false,
+                }
+            }
+        }
+    };
+    let o = obs::parse(bytes);
+    json!({"op":"fz","n":bytes.len(),"small":bytes.len() <= 512,
+           "bytes": if bytes.len() <= 512 { bytes_json(bytes) } else { json!([]) },
+           "obs_ok":o.is_some(),"obs_size":o.map(|p| 20 + p.length as i64).unwrap_or(-1),
+           "res":res,"git_panic":git_panic,"prefix_same":prefix_same})
+}
+
+fn cmd_fuzz(args: &[String]) {
+    let out = arg(args, "--out", "out");
+    let seed: u64 = arg(args, "--seed", "1").parse().unwrap();
+    let n: usize = arg(args, "--inputs", "20000").parse().unwrap();
+    let cases = arg(args, "--cases", "");
+    std::fs::create_dir_all(&out).unwrap();
+    let mut f = BufWriter::new(File::create(format!("{}/trace.ndjson", out)).unwrap());
+    let mut rng = StdRng::seed_from_u64(seed);
+    let mut count = 0u64;
+    if !cases.is_empty() {
+        let v: Value = serde_json::from_str(&std::fs::read_to_string(&cases).unwrap()).unwrap();
+        for c in v["cases"].as_array().cloned().unwrap_or_default() {
+            let b: Vec<u8> = c["bytes"].as_array().unwrap().iter().map(|x| x.as_u64().unwrap() as u8).collect();
+            writeln!(f, "{}", fuzz_record(&b)).unwrap();
+            count += 1;
+        }
+        f.flush().unwrap();
+        println!("{}", json!({"records":count}));
+        return;
+    }
+    // corpus of valid messages: zoo messages with tails, plus long-term style error responses
+    let keys = rt_keys();
+    let kinds = body_kinds();
+    let mut corpus: Vec<Vec<u8>> = Vec::new();
+    for i in 0..200 {
+        let na = rng.random_range(0..=4usize);
+        let mut items: Vec<Item> = Vec::new();
+        for _ in 0..na {
+            let k = kinds[rng.random_range(0..kinds.len())];
+            let v = zoo::generate(k, &mut rng, usize::MAX);
+            // encode the single attribute with the real encoder to get its value bytes
+            if let Ok(a) = zoo::construct(k, &v) {
+                let m = stun_rs::StunMessageBuilder::new(stun_rs::methods::BINDING, stun_rs::MessageClass::Request).with_attribute(a).build();
+                let mut buf = vec![0u8; 70000];
+                if let Ok(sz) = stun_rs::MessageEncoderBuilder::default().build().encode(&mut buf, &m) {
+                    if let Some(p) = obs::parse(&buf[..sz]) {
+                        if let Some(x) = p.attrs.first() {
+                            if x.value.len() < 300 { items.push(Item::Raw(x.t, x.value.clone())); }
+                        }
+                    }
+                }
+            }
+        }
+        if i % 4 == 0 {
+            items.push(Item::Raw(obs::T_ERROR, obs::error_code_value(401, "Unauthorized")));
+            items.push(Item::Raw(obs::T_REALM, b"example.org".to_vec()));
+            items.push(Item::Raw(obs::T_NONCE, b"obMatJos2gAAAf//499k954d6OL34oL9FSTvy64sA".to_vec()));
+            items.push(Item::Raw(obs::T_PWD_ALGS, vec![0, 1, 0, 0, 0, 2, 0, 3, 9, 9, 9, 0, 0, 7, 0, 0]));
+        }
+        match i % 5 { 0 => items.push(Item::Mi(keys[0].raw.clone(), false)), 1 => items.push(Item::Sha(keys[0].raw.clone(), false)), _ => {} }
+        if i % 3 == 0 { items.push(Item::Fp(false)); }
+        let mut id = [0u8; 12];
+        rng.fill(&mut id);
+        corpus.push(obs::build(rng.random_range(0..0x1000), rng.random_range(0..4), &id, &items));
+    }
+    for i in 0..n {
+        let bytes = match i % 10 {
+            0 => { let l = rng.random_range(0..80); (0..l).map(|_| rng.random()).collect::<Vec<u8>>() }
+            1 => { // random body behind a valid header
+                let l = rng.random_range(0..60usize) & !3;
+                let mut b = vec![0u8, 1, (l >> 8) as u8, l as u8];
+                b.extend_from_slice(&obs::COOKIE);
+                b.extend((0..12 + l).map(|_| rng.random::<u8>()));
+                b
+            }
+            2 => corpus[rng.random_range(0..corpus.len())].clone(),
+            _ => { let ci = rng.random_range(0..corpus.len()); mutate(&mut rng, &corpus[ci]) }
+        };
+        writeln!(f, "{}", fuzz_record(&bytes)).unwrap();
+        count += 1;
+    }
+    f.flush().unwrap();
+    println!("{}", json!({"records":count}));
+}
+
 fn main() {
     std::panic::set_hook(Box::new(|_| {}));
     let args: Vec<String> = std::env::args().collect();
@@ -845,6 +1048,7 @@ fn main() {
         "msgtype" => cmd_msgtype(&args),
         "ignorable" => cmd_ignorable(&args),
         "faults" => cmd_faults(&args),
+        "fuzz" => cmd_fuzz(&args),
         _ => {
             eprintln!("usage: drive-codec filter ...");
             std::process::exit(2);
